@@ -118,7 +118,9 @@ def vbiDecAux : Nat → List Nat → Nat → Nat → Nat → Nat → VRes
   | fuel + 1, b :: rest, mult, value, i, len =>
     let value := value + (b % 128) * mult
     if value > vbiMax then .err
-    else if b < 128 then .ok value (i + 1)      -- `(b & 0x80) == 0`; `from_u32(value)`: canonicalised
+    else if b < 128 then                        -- `(b & 0x80) == 0`
+      -- `from_u32(value)` is the canonical encoding; a longer input is rejected (since b1b35e9)
+      if vbiSize value = i + 1 then .ok value (i + 1) else .err
     else vbiDecAux fuel rest (mult * 128) value (i + 1) len
 
 /-- `VariableByteInteger::decode_stream` -/
